@@ -1027,9 +1027,9 @@ package res
 //@   ensures ok: rn != nil && isnode[ref(rn)] && muxOK(m) && nlit[ref(m.root)]
 //@   ensures params: forall(k, 0, len(rparams), 0 <= rparams[k].idx && rparams[k].idx < nr[ref(rn)])
 //@   ensures fresh: forallge(q, nextRef(), !isnode[q])
-//@   loop 1 invariant -1 <= rangeindex && rangeindex < len(tokens) + 0 && WF() && m.root != nil && isnode[ref(m.root)] && nr[ref(m.root)] == 0 && nlit[ref(m.root)]
+//@   loop 1 invariant -1 <= rangeindex__1 && rangeindex__1 < len(tokens) + 0 && WF() && m.root != nil && isnode[ref(m.root)] && nr[ref(m.root)] == 0 && nlit[ref(m.root)]
 //@   loop 1 invariant l != nil && isnode[ref(l)] && 0 < ref(l) && ref(l) < nextRef() && mount == nil && !doMount
-//@   loop 1 invariant 0 <= mountIdx && mountIdx <= rangeindex + 1 && imp(!l.mounted, nr[ref(l)] + mountIdx == rangeindex + 1)
-//@   loop 1 invariant forall(k, 0, len(params), 0 <= params[k].idx && params[k].idx + mountIdx < rangeindex + 1) && imp(len(params) > 0, !nlit[ref(l)])
+//@   loop 1 invariant 0 <= mountIdx && mountIdx <= rangeindex__1 + 1 && imp(!l.mounted, nr[ref(l)] + mountIdx == rangeindex__1 + 1)
+//@   loop 1 invariant forall(k, 0, len(params), 0 <= params[k].idx && params[k].idx + mountIdx < rangeindex__1 + 1) && imp(len(params) > 0, !nlit[ref(l)])
 //@   loop 1 invariant forallge(q, nextRef(), !isnode[q]) && (ref(params) == 0 || ref(params) >= old(nextRef()))
 //@   loop 2 invariant -1 <= rangeindex__2 && rangeindex__2 < len(params) + 0
